@@ -6,7 +6,7 @@
    [impl] = Py | Cy selects the pure-Python or the compiled behaviour where they differ. *)
 From Coq Require Import ZArith List Bool Lia.
 From Verif Require Import Imp C09Bytes C09_Crc C09_Varint C09_RecordV2 C09_Legacy C09_MemRecords
-  C09_Valid VarintEnc VarintSize VarintDec C09_varint C09_split C09_v2.
+  C09_Valid VarintEnc VarintSize VarintDec C09_varint C09_split C09_v2 C09_legacy.
 Import ListNotations.
 Open Scope Z_scope.
 
@@ -96,6 +96,18 @@ Proof. exact v2_attribute_bits. Qed.
 Print Assumptions c09_v2_attribute_bits.
 
 (* ---- legacy (v0 / v1) ------------------------------------------------------------------------- *)
+(* uncompressed: the builder's output splits into one message per accepted record, each message
+   reads back (either reader) as that record with its CRC-32 *)
+Theorem c09_legacy_roundtrip : forall i c rs,
+  valid_lcfg c -> lc_codec c = 0 -> Forall valid_lrec rs ->
+  let buf := fst (lappends c [] rs) in
+  let acc := laccepted rs (snd (lappends c [] rs)) in
+  lbuild no_compress c buf = Some buf
+  /\ split i buf = (map (fun r => (lc_magic c, lmsg_of c r)) acc, Some [])
+  /\ Forall (fun r => lread no_decompress i (lc_magic c) (lmsg_of c r) = Some [lexpect c r]
+                      /\ lvalidate_crc (lmsg_of c r) = true) acc.
+Proof. exact legacy_roundtrip. Qed.
+Print Assumptions c09_legacy_roundtrip.
 
 
 (* ---- MemoryRecords ---------------------------------------------------------------------------- *)
@@ -115,6 +127,12 @@ Theorem c09_prefix_is_partial : forall b k,
 Proof. exact prefix_partial_ok. Qed.
 Print Assumptions c09_prefix_is_partial.
 
+(* the splitter of the ORIGINAL tree (magic read at byte 16 of the whole buffer) does not have
+   this property: a v2 batch followed by a v1 message *)
+Theorem c09_split_fixed_offset_refuted : exists bs,
+  Forall wf_batch bs /\ split_fixed (concat bs ++ []) <> (map (tag Cy) bs, Some []).
+Proof. exact split_fixed_refuted. Qed.
+Print Assumptions c09_split_fixed_offset_refuted.
 
 (* ---- size accounting --------------------------------------------------------------------------- *)
 (* after any sequence of append() calls: the results (None = refused, else offset / size /
